@@ -53,6 +53,8 @@ def build(rng, case, k):
         ds['amps'][rng.randint(ns)] = np.inf
     if ds['sim'] is not None:
         ds['sim'][0, 0] = -np.inf
+    if (k // 4) % 2:
+        ds['aux_fortran'] = True          # whitening / similarity / 2-D attributes stored in Fortran order
     if (k // 2) % 2:
         ds['aux_dtype'] = np.float32      # amplitudes / whitening / similarity stored in single precision
     ds['T'][0, 0, 0] = np.nan
@@ -65,7 +67,8 @@ def build(rng, case, k):
             ds['chmap'] = np.arange(nc)   # the identity map over a raw file with one more channel: the last column is dropped
     # per-spike attributes: matching length (1-D, (n, 2) positions, 4-D), and one of another length (ignored)
     ds['attrs'] = {'foo': rng.randint(0, 9, size=ns), 'bar': rng.randint(0, 9, size=ns + 1),
-                   'positions': rng.randint(0, 9, size=(ns, 2)), 'deep': rng.randint(0, 9, size=(ns, 3, 1, 2))}
+                   'positions': rng.randint(0, 9, size=(ns, 2)), 'deep': rng.randint(0, 9, size=(ns, 3, 1, 2)),
+                   'weights': np.where(rng.rand(ns, 2) < 0.2, np.nan, rng.randint(0, 9, size=(ns, 2)).astype(float))}
     return ds
 
 
@@ -107,7 +110,7 @@ def check_case(ctx, d, rng, case, k):
             alt = arr + 1
         np.save(dd / other[b], alt)
     files = sorted(x.name for x in dd.iterdir())
-    expected_files = sorted(set(case['files']) | {'params.py', 'spike_foo.npy', 'spike_bar.npy', 'spike_positions.npy', 'spike_deep.npy'} |
+    expected_files = sorted(set(case['files']) | {'params.py', 'spike_foo.npy', 'spike_bar.npy', 'spike_positions.npy', 'spike_deep.npy', 'spike_weights.npy'} |
                             ({'raw.dat'} if ds.get('raw') is not None else set()))
     if files != expected_files:
         raise MachineryError('materialised files %r, configuration says %r' % (files, expected_files))
@@ -169,7 +172,8 @@ def check_case(ctx, d, rng, case, k):
         # extra per-spike attribute arrays of matching length
         sa = m.spike_attributes
         if ('bar' in sa or any(a not in sa or not same(sa[a], np.asarray(ds['attrs'][a]).squeeze())
-                               for a in ('foo', 'positions', 'deep'))):
+                               for a in ('foo', 'positions', 'deep'))
+                or 'weights' not in sa or not same(sa['weights'], np.nan_to_num(np.asarray(ds['attrs']['weights']), nan=0.0))):
             problems.append('spike attributes %r' % sorted(sa))
         # raw traces: columns permuted by the channel map
         if ds.get('raw') is not None:
@@ -178,6 +182,13 @@ def check_case(ctx, d, rng, case, k):
                 problems.append('traces are not the raw columns permuted by the channel map')
         elif m.traces is not None:
             problems.append('traces without raw data')
+        # the loader keeps spike_clusters as an in-memory COPY ("so that we can update this array during manual
+        # clustering"): writing into it must leave every other loaded attribute as the files have it
+        st_before = np.array(m.spike_templates)
+        m.spike_clusters[:1] += 1
+        if not np.array_equal(np.asarray(m.spike_templates), st_before):
+            problems.append('an in-place update of model.spike_clusters changed model.spike_templates (the two arrays '
+                            'share memory)')
     finally:
         m.close()
     return problems, ds
